@@ -130,6 +130,8 @@ static void c16_setup(void)
 
 static void c16_check_clean(void)
 {
+  /* frame: the members of the export object the write layer has no business with (CBMC checks only the outer object) */
+  V_ASSERT(E.network == NULL && E.creator == NULL && E.reveal == 0, "export_options_untouched");
   V_ASSERT(E.target == 0, "target_reset");
   V_ASSERT(E.buffer.data == NULL && E.buffer.offset == 0 && E.buffer.capacity == 0, "buffer_reset");
   V_ASSERT(E._write == NULL, "write_fn_reset");
@@ -222,6 +224,7 @@ V_HARNESS(h_c16_stdio)
   if (!r && hard) V_REACH("io_fault");
   c16_check_log(r);
   c16_check_clean();
+  free(E.errstr); E.errstr = NULL;      /* the error message belongs to the export object (vbi_export_delete frees it) */
   V_END();
 }
 
@@ -254,10 +257,12 @@ V_HARNESS(h_c16_file)
     c16_check_clean();
     V_ASSERT(E.name == NULL, "name_reset");
   }
+  free(E.errstr); E.errstr = NULL;
   V_END();
 }
 
 /* ---- the unbuffered path: writes of >= 4096 bytes go straight to the target after flushing the buffer ---------- */
+#ifdef G_BIG      /* compiled in only for write_big: a 4 KB static costs symex time in every harness of this file */
 #define BIG 4096
 static uint8_t BIGSRC[BIG];
 static uint8_t b_pre[2], b_post[2];
@@ -295,3 +300,4 @@ V_HARNESS(h_c16_big)
   c16_check_clean();
   V_END();
 }
+#endif /* G_BIG */
